@@ -93,22 +93,59 @@ def _xclass_targets(typed):
     return [("subclass", SubTree), ("subclass+calc_data_id", KeyedSubTree), ("same class", base)]
 
 
+class _Attr:
+    """Data object whose attribute names are the ones a *typed* node has and a plain node lacks: on a tree with
+    forward_attrs=True a plain node answers `node._kind` / `node.kind` with these."""
+
+    def __init__(self, lab):
+        self.lab, self._kind, self.kind = lab, "data-kind", "data-kind"
+
+    def __repr__(self):
+        return f"_Attr({self.lab!r})"
+
+    def __str__(self):
+        return self.lab
+
+
+_ATTR_MEMO: dict = {}
+
+
+def _mk_attr(lab):
+    return _ATTR_MEMO.setdefault(lab, _Attr(lab))
+
+
+def _fwd_tree_cls():
+    from nutree import Tree
+
+    class FwdTree(Tree):
+        def __init__(self, name=None, **kw):
+            super().__init__(name, forward_attrs=True, **kw)
+
+    return FwdTree
+
+
 def _xclass_chunk(chunk, prop):
     """copy_to / add(node) into a tree of ANOTHER class (target class a proper subclass of the source's, with and without
     an id hook; source class a proper subclass of the target's): new nodes, same data objects / ids / kinds / order."""
     res = Result(prop)
     for spec in chunk:
         for tname, tcls in _xclass_targets(spec.typed):
-            for src_sub in (False, True):
+            for src_sub in (False, True, "fwd"):
                 if src_sub and tname != "same class":
                     continue
-                src_cls = _xclass_targets(spec.typed)[0][1] if src_sub else None
+                if src_sub == "fwd" and spec.typed:
+                    continue
+                src_cls = _xclass_targets(spec.typed)[0][1] if src_sub is True else None
+                mk = None
+                if src_sub == "fwd":  # plain source AND target with forward_attrs=True, data objects that have `_kind` / `kind` attributes
+                    src_cls = tcls = _fwd_tree_cls()
+                    mk = _mk_attr
                 n = len(spec.nodes)
                 cases = [("Tree.copy_to", -1, True, d, where) for d in (True, False) for where in ("tree", "node")]
                 cases += [("Node.copy_to", i, a, d, where) for i in range(n) for a in (True, False) for d in (True, False) for where in ("tree", "node")]
                 cases += [("add(node)", i, True, d, where) for i in range(n) for d in (True, False) for where in ("tree", "node")]
                 for func, i, add_self, deep, where in cases:
-                    tree, nodes = gen.build(spec, tree_cls=src_cls)
+                    tree, nodes = gen.build(spec, tree_cls=src_cls, mk=mk)
                     before = view.obs(tree)
                     tt = tcls("X")
                     kw = {"kind": "k9"} if spec.typed else {}
@@ -129,7 +166,7 @@ def _xclass_chunk(chunk, prop):
                         else:
                             target.add(nodes[i], deep=deep)
                     except Exception as e:  # noqa: BLE001
-                        res.violations.append(Violation(prop, "no exception", func, wit, clip(f"[target: {tname}{', source: subclass' if src_sub else ''}] raised {type(e).__name__}: {e}")))
+                        res.violations.append(Violation(prop, "no exception", func, wit, clip(f"[target: {tname}{', source: subclass' if src_sub is True else ', forward_attrs trees of data objects with _kind / kind attributes' if src_sub else ''}] raised {type(e).__name__}: {e}")))
                         continue
 
                     class _P:
@@ -153,7 +190,7 @@ def _xclass_chunk(chunk, prop):
                     for d in diffs[:2]:
                         if "kind 'child' vs" in d:
                             continue  # known finding F15 (shallow copy of a typed node takes the default kind): reported by the same-class sweep
-                        res.violations.append(Violation(prop, "ensures copy is isomorphic with identical data objects, ids, kinds", func, wit, clip(f"[target: {tname}{', source: subclass' if src_sub else ''}, {'deep' if deep else 'shallow'}, below the {where}] " + d)))
+                        res.violations.append(Violation(prop, "ensures copy is isomorphic with identical data objects, ids, kinds", func, wit, clip(f"[target: {tname}{', source: subclass' if src_sub is True else ', forward_attrs trees of data objects with _kind / kind attributes' if src_sub else ''}, {'deep' if deep else 'shallow'}, below the {where}] " + d)))
                     for v in view.wf_violations(tt)[:2]:
                         res.violations.append(Violation(prop, "ensures wf(target)", func, wit, v))
                     if view.obs(tree) != before:
